@@ -242,7 +242,18 @@ class G:
             rules.append((("cmp", ">=", a), outs[3]))
         if pol == "A":
             rules.append((("cmp", ">=", b), outs[1]))
-        return {"src": src, "policy": pol, "rules": rules}
+        t = {"src": src, "policy": pol, "rules": rules, "default": None}
+        if r.random() < 0.5:
+            # a gap in the rules (nothing matches inside [a..b]) and, mostly, a default output entry that is an
+            # expression over the input, evaluated per call in the caller's scope
+            t["rules"] = [x for x in rules if x[0][0] != "rng"]
+            if pol not in ("F", "C+", "C"):
+                pass
+            else:
+                t["rules"] = [x for x in t["rules"] if not (x[0][0] == "cmp" and x[0][1] == ">=")]
+            if r.random() < 0.75:
+                t["default"] = (r.choice(["add", "mul", "sub"]), ("name", src), ("num", r.choice(["2", "0.5", "100"])))
+        return t
 
     # ---- helpers ----------------------------------------------------------------------------
     @staticmethod
@@ -282,7 +293,8 @@ def _lit(e):
 
 def _table_xml(t):
     pol = {"U": 'hitPolicy="UNIQUE"', "F": 'hitPolicy="FIRST"', "A": 'hitPolicy="ANY"', "C": 'hitPolicy="COLLECT"', "C+": 'hitPolicy="COLLECT" aggregation="SUM"'}[t["policy"]]
-    p = ["<decisionTable %s>" % pol, '<input><inputExpression typeRef="number"><text>%s</text></inputExpression></input>' % escape(t["src"]), "<output/>"]
+    out = "<output/>" if t.get("default") is None else "<output><defaultOutputEntry><text>%s</text></defaultOutputEntry></output>" % escape(rfeel.render(t["default"]))
+    p = ["<decisionTable %s>" % pol, '<input><inputExpression typeRef="number"><text>%s</text></inputExpression></input>' % escape(t["src"]), out]
     for spec, out in t["rules"]:
         if spec[0] == "cmp":
             text = "%s %s" % (spec[1], format(spec[2], "f"))
@@ -417,6 +429,9 @@ class Ref:
                 matching.append(out)
         pol = t["policy"]
         if not matching:
+            if t.get("default") is not None:
+                # the default output entry is evaluated in the scope of this call
+                return rfeel.ev(t["default"], [{t["src"]: x}])
             return None
         if pol == "U":
             return matching[0] if len(matching) == 1 else None
